@@ -203,7 +203,7 @@ Definition zchain (cid : Z) : list (sverb rec zst * zst) :=
   | 2 => [(z_head 3, z0)]
   | 3 => [(z_filter_odd, z0)]
   | 4 => [(z_cat, z0); (z_put_nr, z0); (z_head 3, z0)]
-  | 5 => [(z_filter_odd, z0); (z_put_nr, z0)]
+  | 5 => [(z_put_nr, z0); (z_filter_odd, z0)]   (* NR is the input record number carried in the record context: put comes first *)
   | 6 => [(z_tac, z0)]
   | 7 => [(z_put_nr, z0); (z_tac, z0); (z_head 3, z0)]
   | _ => [(z_cat, z0)]
